@@ -1,12 +1,13 @@
 """C10 — a solve is a deterministic function of its inputs, independent of history."""
 from ..gen import Gen
 from ..unit import run_unit
-from .. import camp_props
+from .. import camp_props, common
 
-PROP_FILES = []
+PROP_FILES = ["props/C10.v"]
 TECHNIQUE = "Coq proof + regenerated structural facts + correspondence"
 
 
 def run(rep, tier, seed, scratch):
     g = Gen(seed)
+    common.facts_obligations(rep, 'C10', scratch)
     camp_props.run_C10(rep, tier, seed)
